@@ -134,7 +134,7 @@ def impulse(m, spec, nper, kind, s, t) -> np.ndarray:
     for j in range(spec["n"]):
         for k, p in enumerate(span):
             v = sv(out, C01.vname(j), p)
-            R[j, k] = math.log(v) if spec["logs"][j] else v
+            R[j, k] = (math.log(v) if v > 0 else float("nan")) if spec["logs"][j] else v
     return R
 
 
@@ -185,6 +185,15 @@ def gen_plan(rng, spec, m, nper, mode):
     if not inst:
         return None
     return {"inst": inst, "targ": targ, "tA_end": tA_end}
+
+
+def n_frames(case) -> int:
+    """number of frames of the first-order simulator: split only when an anticipated shock is endogenized after the
+    first period, then at every non-zero unanticipated shock and every endogenized unanticipated date"""
+    if not any(k == "v" and t > 0 for k, _s, t in case["inst"]):
+        return 1
+    bp = {0} | {t for k, _s, t, v in case["bg"] if k == "u" and v != 0} | {t for k, _s, t in case["inst"] if k == "u"}
+    return len(bp)
 
 
 def gen_case(rng, spec, m, method="first_order", mode=None):
@@ -345,6 +354,9 @@ def check_property(case, m, rec, acc=None) -> list[Failure]:
     if not all(np.isfinite(vals)):
         fails.append(Failure(f"path:non-finite:{shape}", "planned simulation returns non-finite values", inp))
         return fails
+    if any(spec["logs"][j] and not sv(out, C01.vname(j), start + t) > 0 for j in range(spec["n"]) for t in range(nper)):
+        fails.append(Failure(f"path:non-positive:{shape}", "planned simulation returns a non-positive log-variable", inp))
+        return fails
     if acc is not None:
         V, Jc = acc[0], acc[1]
         r = C01.property_residual(spec, m, {"deviation": case["deviation"], "nper": nper}, out, rec["span"], Jc, V)
@@ -503,6 +515,7 @@ def coq_case(idx, case, m, rec, outs) -> tuple[str, dict] | None:
            f"  {lag} {nper}%nat {exog_ant} {exog_un} {endog_un} {endog_ant}\n"
            f"  {KC.q_mat(A)}.\n")
     labels = {}
+    cmps = []
     for lab, (box, cmp_names) in outs.items():
         rows, exps = [], []
         for nm in cmp_names:
@@ -517,14 +530,18 @@ def coq_case(idx, case, m, rec, outs) -> tuple[str, dict] | None:
                 vals.append("None" if (v != v or math.isinf(v)) else f"(Some {KC.q_lit(v)})")
             rows.append(row[nm])
             exps.append("[" + "; ".join(vals) + "]")
-        txt += (f"Eval vm_compute in (check_case C case_{idx} {_zl(rows)} [{'; '.join(exps)}]).\n")
+        cmps.append(f"({_zl(rows)}, [{'; '.join(exps)}])")
         labels[lab] = cmp_names
+    txt += f"Eval vm_compute in (check_case C case_{idx} [{'; '.join(cmps)}]).\n"
     return txt, {"layout": L, "lag": lag, "labels": labels}
 
 
-def parse_cells(body: str) -> list[tuple[int, int]]:
-    nums = [int(x) for x in re.findall(r"-?\d+", body)]
-    return list(zip(nums[0::2], nums[1::2]))
+def parse_cells(body: str) -> list[list[tuple[int, int]]]:
+    """[[ (r, c); ... ]; ...] -> one list of cells per compared output"""
+    out = []
+    for part in _ints(body):
+        out.append([tuple(x) for x in part])
+    return out
 
 
 # =====================================================================================
@@ -757,7 +774,10 @@ def collect_cases(ctx, n_cases, method_share=0.25):
         if got is None:
             continue
         m, acc = got
-        case = gen_case(rng, spec, m, "first_order")
+        try:
+            case = gen_case(rng, spec, m, "first_order")
+        except Exception:  # noqa -- the plain simulations used to pick a plan failed: not a plan case
+            case = None
         if case is None:
             continue
         rec = run_case(case, m)
@@ -782,7 +802,7 @@ def correspondence(ctx) -> CorrResult:
     res.shards += max(1, (nh + 249) // 250)
     # (b) conditional simulation
     cases = collect_cases(ctx, ctx.scale(150, 3500))
-    per = 12
+    per = 6
     shards, owners = [], []
     metas = {}
     cur, own = HEADER, []
@@ -815,6 +835,7 @@ def correspondence(ctx) -> CorrResult:
         dist["log_models"] += bool(any(case["spec"]["logs"]))
         dist["endogenized_cells"] += len(case["inst"])
         dist["anticipated_cells"] += sum(1 for k, _, _ in case["inst"] if k == "v")
+        dist["frames>1"] += n_frames(case) > 1
         if len(own) >= per:
             shards.append(cur); owners.append(own); cur, own = HEADER, []
     if own:
@@ -826,14 +847,13 @@ def correspondence(ctx) -> CorrResult:
             res.disagreements.append(Disagreement("conditional:coq-error", None, out[-800:], None))
             continue
         bodies = core.parse_eval_lists(out)
-        if len(bodies) != sum(len(labs) for _, labs in own):
+        if len(bodies) != len(own):
             res.disagreements.append(Disagreement("conditional:parse", None, f"{len(bodies)} results", None))
             continue
-        k = 0
-        for i, labs in own:
+        for body, (i, labs) in zip(bodies, own):
             case, m, acc, rec, rec2 = cases[i]
-            for lab in labs:
-                cells = parse_cells(bodies[k]); k += 1
+            per_out = parse_cells(body)
+            for lab, cells in zip(labs, per_out):
                 evaluated += 1
                 if not cells:
                     continue
@@ -957,7 +977,10 @@ def falsify(ctx, hints):
                 info["skipped"] += 1
                 continue
             m, acc = got
-            case = gen_case(rng, spec, m, method, mode)
+            try:
+                case = gen_case(rng, spec, m, method, mode)
+            except Exception:  # noqa
+                case = None
             if case is None:
                 info["skipped"] += 1
                 continue
